@@ -25,6 +25,7 @@ type tgen struct {
 	nvars   int
 	setup  []string // set-up goals (text)
 	nbuild int
+	force int // construction path forced for the next list rendered (0 = none)
 }
 
 // abstract term generation over {a,b,f/1,g/2,ints,floats,lists,char lists,vars}
@@ -62,7 +63,7 @@ func (g *tgen) term(depth int, allowVars bool) *G {
 		return glist(es, nil)
 	case n == 12:
 		var es []*G
-		for i, k := 0, r.intn(4); i < k; i++ {
+		for i, k := 0, r.intn(7); i < k; i++ {
 			es = append(es, g.term(depth-1, allowVars))
 		}
 		return glist(es, nil)
@@ -149,7 +150,10 @@ func (g *tgen) render(t *G, paths bool) string {
 		if paths {
 			choice = g.r.intn(8)
 		}
-		if s, ok := isCharList(t); ok && paths {
+		if g.force != 0 && paths {
+			choice, g.force = g.force, 0
+		}
+		if s, ok := isCharList(t); ok && paths && choice != 6 {
 			k := g.r.intn(4)
 			if g.literal {
 				k = 1 + g.r.intn(2)
@@ -209,6 +213,22 @@ func (g *tgen) render(t *G, paths bool) string {
 				v := g.fresh()
 				x := g.fresh()
 				g.setup = append(g.setup, fmt.Sprintf("findall(%s, member(%s, [%s]), %s)", x, x, strings.Join(el, ","), v))
+				return v
+			}
+		case 6: // append/3 twice over one built prefix: the first result must not change when the prefix is extended again
+			if ground(t) && tail.K == 'a' && tail.S == "[]" && len(el) >= 2 {
+				k := len(el) - 1 // a one-element suffix: what fits into spare capacity of the built prefix
+				if g.r.coin(0.25) {
+					k = 1 + g.r.intn(len(el)-1)
+				}
+				pv, v, x := g.fresh(), g.fresh(), g.fresh()
+				if g.r.coin(0.5) {
+					g.setup = append(g.setup, fmt.Sprintf("findall(%s, member(%s, [%s]), %s)", x, x, strings.Join(el[:k], ","), pv))
+				} else {
+					g.setup = append(g.setup, fmt.Sprintf("length(%s, %d), %s = [%s]", pv, k, pv, strings.Join(el[:k], ",")))
+				}
+				g.setup = append(g.setup, fmt.Sprintf("append(%s, [%s], %s)", pv, strings.Join(el[k:], ","), v),
+					fmt.Sprintf("append(%s, [zz9], _)", pv))
 				return v
 			}
 		case 5: // copy_term/2 (ground only)
@@ -307,6 +327,18 @@ func runC02(outDir string, seed int64, tier string) {
 		if g.r.coin(0.5) { // make unifiable pairs frequent: t2 is a variant / instance skeleton of t1
 			t2 = mutateTerm(g, t1)
 		}
+		directed := i < 64
+		if directed {
+			// lists of 2-9 atoms built by extending a built prefix (findall/3, length/2) twice, against the
+			// same list, a list differing in the last element, and a pattern with an unbound last element
+			var es []*G
+			for j, l := 0, 2+i%8; j < l; j++ {
+				es = append(es, ga([]string{"a", "b", "c", "d"}[(i+j)%4]))
+			}
+			t1 = glist(es, nil)
+			last := append(append([]*G{}, es[:len(es)-1]...), []*G{es[len(es)-1], ga("zz9"), gv(0), ga("e")}[i/8%4])
+			t2 = glist(last, nil)
+		}
 		if t1.K == 'v' && t2.K == 'v' && g.r.coin(0.8) {
 			continue
 		}
@@ -319,7 +351,12 @@ func runC02(outDir string, seed int64, tier string) {
 		type obsT struct{ s string }
 		run := func(mode string, paths bool) (string, []string, string) {
 			g.setup, g.nbuild = nil, 0
-			a, b := g.render(t1, paths), g.render(t2, paths)
+			if directed {
+				g.force = 6
+			}
+			a := g.render(t1, paths)
+			g.force = 0
+			b := g.render(t2, paths && !directed)
 			var goal string
 			switch mode {
 			case "eq":
